@@ -16,6 +16,7 @@ Residue (named in the evidence): each modelled step is atomic in the Go code (at
 blocked goroutines are eventually scheduled.
 -/
 import FhVerif.Proofs.ServerCounters
+import FhVerif.Gen.PerIPClose
 
 namespace Fh.Props.C12
 open Fh Fh.Wsum Fh.Model.Srv Fh.Proofs.Srv
@@ -114,8 +115,8 @@ private theorem run2 {s t1 t2 : State} {e1 e2 : Ev} (h1 : step s e1 = some t1) (
     where it was. -/
 theorem extra_connection_gets_503_serveconn (cfg : Cfg) (evs : List Ev) (s : State)
     (hr : run (State.init cfg) evs = some s) (hfull : cfg.C ≤ s.conc) (i : Nat) (c : Conn)
-    (hc : s.conns[i]? = some c) (hpath : c.path = .direct) (hph : c.phase = .wrapped) :
-    ∃ s', run s [.conn i .acqAdd, .conn i .acqDecide, .conn i .rejectClose] = some s' ∧
+    (hc : s.conns[i]? = some c) (hpath : c.path = .direct) (hph : c.phase = .wrapped) (err : Bool) :
+    ∃ s', run s [.conn i .acqAdd, .conn i .acqDecide, .conn i (.rejectClose err)] = some s' ∧
       s'.conc = s.conc ∧ s'.opn = s.opn ∧
       ∃ c', s'.conns[i]? = some c' ∧ c'.phase = .done .r503 ∧ c'.closed = true ∧ c'.served = false ∧ c'.reg = false := by
   obtain ⟨hinv, _, hcfg⟩ := reach hr
@@ -146,16 +147,16 @@ theorem extra_connection_gets_503_serveconn (cfg : Cfg) (evs : List Ev) (s : Sta
   have hc2 : t2.conns[i]? = some c2 := List.getElem?_set_self hi1
   -- step 3: 503 + close
   let c3 : Conn := { closeC c2 with phase := .done .r503 }
-  let t3 : State := { closeS t2 c2 with conns := t2.conns.set i c3 }
-  have h3 : step t2 (.conn i .rejectClose) = some t3 :=
-    step_conn (a := .rejectClose) (s1 := closeS t2 c2) (c1 := c3) hc2 (by
+  let t3 : State := { closeS t2 c2 err with conns := t2.conns.set i c3 }
+  have h3 : step t2 (.conn i (.rejectClose err)) = some t3 :=
+    step_conn (a := .rejectClose err) (s1 := closeS t2 c2 err) (c1 := c3) hc2 (by
       have hph2 : c2.phase = .rejecting := rfl
       simp only [act, hph2, if_true]; rfl)
   refine ⟨t3, run3 h1 h2 h3, ?_, ?_, c3, ?_, rfl, rfl, rfl, rfl⟩
-  · show (closeS t2 c2).conc = s.conc
-    unfold closeS; split <;> simp [t2, t1]
-  · show (closeS t2 c2).opn = s.opn
-    unfold closeS; split <;> simp [t2, t1]
+  · show (closeS t2 c2 err).conc = s.conc
+    unfold closeS; split <;> split <;> simp [t2, t1]
+  · show (closeS t2 c2 err).opn = s.opn
+    unfold closeS; split <;> split <;> simp [t2, t1]
   · exact List.getElem?_set_self (by simp [t2, t1, hi])
 
 /-- **Extra connection, `Serve`.**  While all `Concurrency` workers of a `Serve` call are busy, the next accepted
@@ -164,8 +165,8 @@ theorem extra_connection_gets_503_serveconn (cfg : Cfg) (evs : List Ev) (s : Sta
 theorem extra_connection_gets_503_serve (cfg : Cfg) (evs : List Ev) (s : State)
     (hr : run (State.init cfg) evs = some s) (p : Nat) (pl : Pool) (hp : s.pools[p]? = some pl)
     (hfull : pl.idle = 0 ∧ pl.workers = cfg.C) (i : Nat) (c : Conn)
-    (hc : s.conns[i]? = some c) (hpath : c.path = .serve p) (hph : c.phase = .counted) :
-    ∃ s', run s [.conn i .getCh, .conn i .openDec, .conn i .rejectClose] = some s' ∧
+    (hc : s.conns[i]? = some c) (hpath : c.path = .serve p) (hph : c.phase = .counted) (err : Bool) :
+    ∃ s', run s [.conn i .getCh, .conn i .openDec, .conn i (.rejectClose err)] = some s' ∧
       s'.conc = s.conc ∧ s'.opn = s.opn - 1 ∧
       ∃ c', s'.conns[i]? = some c' ∧ c'.phase = .done .r503 ∧ c'.closed = true ∧ c'.served = false ∧ c'.reg = false := by
   obtain ⟨hinv, _, hcfg⟩ := reach hr
@@ -192,16 +193,16 @@ theorem extra_connection_gets_503_serve (cfg : Cfg) (evs : List Ev) (s : State)
       simp only [act, hp1, hph1]; rfl)
   have hc2 : t2.conns[i]? = some c2 := List.getElem?_set_self hi1
   let c3 : Conn := { closeC c2 with phase := .done .r503 }
-  let t3 : State := { closeS t2 c2 with conns := t2.conns.set i c3 }
-  have h3 : step t2 (.conn i .rejectClose) = some t3 :=
-    step_conn (a := .rejectClose) (s1 := closeS t2 c2) (c1 := c3) hc2 (by
+  let t3 : State := { closeS t2 c2 err with conns := t2.conns.set i c3 }
+  have h3 : step t2 (.conn i (.rejectClose err)) = some t3 :=
+    step_conn (a := .rejectClose err) (s1 := closeS t2 c2 err) (c1 := c3) hc2 (by
       have hph2 : c2.phase = .rejecting := rfl
       simp only [act, hph2, if_true]; rfl)
   refine ⟨t3, run3 h1 h2 h3, ?_, ?_, c3, ?_, rfl, rfl, rfl, rfl⟩
-  · show (closeS t2 c2).conc = s.conc
-    unfold closeS; split <;> simp [t2, t1]
-  · show (closeS t2 c2).opn = s.opn - 1
-    unfold closeS; split <;> simp [t2, t1]
+  · show (closeS t2 c2 err).conc = s.conc
+    unfold closeS; split <;> split <;> simp [t2, t1]
+  · show (closeS t2 c2 err).opn = s.opn - 1
+    unfold closeS; split <;> split <;> simp [t2, t1]
   · exact List.getElem?_set_self (by simp [t2, t1, hi])
 
 /-- all busy workers of a pool means: it has no idle worker and cannot start another one -/
@@ -250,6 +251,56 @@ theorem extra_connection_gets_429 (cfg : Cfg) (evs : List Ev) (s : State)
   · show ipDec (ipInc s.perIP c.ip) c.ip c.ip = s.perIP c.ip
     simp [ipDec, ipInc]
   · exact List.getElem?_set_self (by simp [t1, hi])
+
+/-- **A failing transport Close releases the registration all the same.**  Whatever the transport's own `Close`
+    reports, every `c.Close()` of the server (after the request loop, after a 503, by `hijackConnHandler`, or by the
+    owner of a kept hijacked connection) leaves the connection without a per-IP registration and takes exactly its
+    one unit off the address's count. -/
+theorem close_error_still_unregisters (cfg : Cfg) (evs : List Ev) (s : State)
+    (hr : run (State.init cfg) evs = some s) (i : Nat) (c : Conn) (hc : s.conns[i]? = some c)
+    (a : Act) (ha : ∃ err, a = .closeConn err ∨ a = .rejectClose err ∨ a = .hijackClose err ∨ a = .userClose err)
+    (s' : State) (hstep : step s (.conn i a) = some s') (hcl : c.hj = .none ∨ ∀ err, a ≠ .closeConn err) :
+    ∃ c', s'.conns[i]? = some c' ∧ c'.reg = false ∧ c'.closed = true ∧
+      s'.perIP c.ip + (if c.reg then 1 else 0) = s.perIP c.ip ∧ ∀ ip, ip ≠ c.ip → s'.perIP ip = s.perIP ip := by
+  obtain ⟨hinv, _, _⟩ := reach hr
+  have hi : i < s.conns.length := (List.getElem?_eq_some_iff.mp hc).1
+  have hge := ip_ge hinv (List.mem_of_getElem? hc) c.ip
+  obtain ⟨err, ha⟩ := ha
+  obtain ⟨path, cip, phase, reg, closed, served, hj⟩ := c
+  have hw : reg = true → 1 ≤ s.perIP cip := by
+    intro h; subst h; simpa [wIP] using hge
+  cases hact : act s ⟨path, cip, phase, reg, closed, served, hj⟩ a with
+  | none => simp [step, hc, hact] at hstep
+  | some r =>
+    obtain ⟨s1, c1⟩ := r
+    simp only [step, hc, hact, Option.some.injEq] at hstep
+    subst hstep
+    refine ⟨c1, List.getElem?_set_self hi, ?_⟩
+    have key : c1.reg = false ∧ c1.closed = true ∧ s1.perIP cip + (if reg then 1 else 0) = s.perIP cip ∧
+        ∀ ip, ip ≠ cip → s1.perIP ip = s.perIP ip := by
+      rcases ha with rfl | rfl | rfl | rfl
+      all_goals
+        simp only [act] at hact
+        (repeat' split at hact)
+        all_goals first
+          | cases hact
+          | skip
+      all_goals first
+        | (exfalso; rcases hcl with h | h
+           · simp_all
+           · exact h err rfl)
+        | (refine ⟨rfl, rfl, ?_, ?_⟩
+           · cases err <;> cases reg <;> simp_all [closeS, ipDec] <;> omega
+           · intro ip hne; cases err <;> cases reg <;> simp [closeS, ipDec, hne])
+    exact key
+
+/-- The shape of the Go code the previous theorem relies on, regenerated from peripconn.go on every run: both
+    `perIPConn.Close` and `perIPTLSConn.Close` call `Unregister` as a statement of their own body, and the only
+    return before it is the `cc == nil` test of a wrapper that was already closed. -/
+theorem close_always_reaches_unregister :
+    Gen.perIPConn_Close_unregisterTopLevel = true ∧ Gen.perIPConn_Close_earlyReturnGuards = ["cc == nil"] ∧
+    Gen.perIPTLSConn_Close_unregisterTopLevel = true ∧ Gen.perIPTLSConn_Close_earlyReturnGuards = ["cc == nil"] := by
+  decide
 
 /-- **Balance.**  Once every connection has been rejected, or served and closed (a hijacked one: closed by
     `hijackConnHandler` or by its owner), the gauge is 0, every per-IP count is 0 and `s.open` equals the number of
@@ -310,26 +361,26 @@ private def twoDirect : List Ev :=
 
 example : ((run (State.init cfg1) twoDirect).map fun s => (s.conc, s.opn, s.perIP 7, s.perIP 8, servingAll s)) =
     some (2, 1, 1, 1, 1) := by decide
-example : ((run (State.init cfg1) (twoDirect ++ [.conn 1 .acqDecide, .conn 1 .rejectClose,
+example : ((run (State.init cfg1) (twoDirect ++ [.conn 1 .acqDecide, .conn 1 (.rejectClose false),
     .direct 7, .conn 2 .register, .conn 2 .ipDecide])).map fun s =>
       (s.conc, s.opn, s.perIP 7, s.perIP 8, s.conns.map fun c => c.phase)) =
     some (1, 1, 1, 0, [.serving, .done .r503, .done .r429]) := by decide
 
 /-- … and after the served connection is closed everything is back to zero although no `Serve` ever ran -/
-example : ((run (State.init cfg1) (twoDirect ++ [.conn 1 .acqDecide, .conn 1 .rejectClose,
-    .conn 0 .cleanupOpen, .conn 0 .closeConn, .conn 0 .releaseConc])).map fun s =>
+example : ((run (State.init cfg1) (twoDirect ++ [.conn 1 .acqDecide, .conn 1 (.rejectClose false),
+    .conn 0 .cleanupOpen, .conn 0 (.closeConn true), .conn 0 .releaseConc])).map fun s =>
       (getConc s, getOpen s, s.perIP 7, s.perIP 8)) = some (0, 0, 0, 0) := by decide
 
 /-- one `Serve` loop, Concurrency 1, hijack with KeepHijackedConns off: the per-IP registration lives until
     `hijackConnHandler` closes the connection; `GetOpenConnectionsCount` is 0 with the loop still running -/
 example : ((run (State.init cfg1)
     [.serveStart, .accept 0 7, .conn 0 .register, .conn 0 .ipDecide, .conn 0 .openInc, .conn 0 .getCh, .conn 0 .concInc,
-     .conn 0 .hijackStart, .conn 0 .cleanupOpen, .conn 0 .cleanupConc, .conn 0 .closeConn, .conn 0 .workerRelease,
+     .conn 0 .hijackStart, .conn 0 .cleanupOpen, .conn 0 .cleanupConc, .conn 0 (.closeConn true), .conn 0 .workerRelease,
      .conn 0 .hijackReturn]).map fun s => (getConc s, getOpen s, s.opn, s.perIP 7)) = some (0, 0, 1, 1) := by decide
 example : ((run (State.init cfg1)
     [.serveStart, .accept 0 7, .conn 0 .register, .conn 0 .ipDecide, .conn 0 .openInc, .conn 0 .getCh, .conn 0 .concInc,
-     .conn 0 .hijackStart, .conn 0 .cleanupOpen, .conn 0 .cleanupConc, .conn 0 .closeConn, .conn 0 .workerRelease,
-     .conn 0 .hijackReturn, .conn 0 .hijackClose, .serveStop 0]).map fun s =>
+     .conn 0 .hijackStart, .conn 0 .cleanupOpen, .conn 0 .cleanupConc, .conn 0 (.closeConn true), .conn 0 .workerRelease,
+     .conn 0 .hijackReturn, .conn 0 (.hijackClose true), .serveStop 0]).map fun s =>
       (getConc s, getOpen s, s.opn, s.perIP 7, s.serves)) = some (0, 0, 0, 0, 0) := by decide
 
 /-- the sequential accept loop: a second `accept` is not enabled while the first connection is still in the loop -/
